@@ -237,8 +237,15 @@ func (c *Channel) Invoke(ctx context.Context, method string, req, resp interface
 		cloner = ProtoCloner{}
 	}
 
+	// Copy the request before handing it to the server goroutine: once Invoke
+	// has returned (which can happen early, when the context ends) the caller is
+	// free to re-use req, so the goroutine must never read it.
+	reqCopy, err := cloner.Clone(req)
+	if err != nil {
+		return err
+	}
 	codec := func(out interface{}) error {
-		return cloner.Copy(out, req)
+		return cloner.Copy(out, reqCopy)
 	}
 	ctx, cancel := context.WithCancel(ctx)
 	sts := internal.UnaryServerTransportStream{Name: method}
